@@ -31,7 +31,7 @@ ASSUMPTIONS = [
     'STATE/CONTROL pubsubs of client and pilot joined by the real Session._crosswire_proxy closures over in-memory '
     'proxy pubsubs, synchronous delivery', 'processes are FakeProc objects exiting with the scripted code',
     'get_version shim']
-NOT_REACHED = ['raptor path (C20)', 'more than two pilots / pilot death (C12, C13); the second pilot has a stub agent', 'real process spawning (C10)',
+NOT_REACHED = ['raptor path (C20)', 'the Flux instances themselves (stand-ins per partition)', 'more than two pilots / pilot death (C12, C13); the second pilot has a stub agent', 'real process spawning (C10)',
                'exceptions thrown by a component outside any per-task section fail the bulk by design and are not generated']
 BUDGET = {'quick': 160, 'thorough': 1500}
 
